@@ -562,18 +562,18 @@ def t3_tsv(ctx):
         by_key = isinstance(kid, ast.Name) and P.any(['sorted(%s)' % datap, 'sorted(%s.keys())' % datap, datap, '%s.keys()' % datap, 'list(%s)' % datap, 'sorted(list(%s))' % datap], it, expand=True)
         by_item = isinstance(kid, ast.Tuple) and len(kid.elts) == 2 and all(isinstance(x, ast.Name) for x in kid.elts) and \
             P.any(['sorted(%s.items())' % datap, '%s.items()' % datap], it, expand=True)
+        norm = lambda x: ast.dump(ast.parse(x if isinstance(x, str) else unparse(x), mode='eval').body)
         if by_key:
-            kd, vd = ast.dump(kid), ast.dump(ast.parse('%s[%s]' % (datap, kid.id), mode='eval').body)
+            kd, vd = norm(kid.id), norm('%s[%s]' % (datap, kid.id))
         elif by_item:
-            kd, vd = ast.dump(kid.elts[0]), ast.dump(kid.elts[1])
+            kd, vd = norm(kid.elts[0].id), norm(kid.elts[1].id)
         else:
             kd = vd = None
-        norm = lambda x: ast.dump(ast.parse(unparse(x), mode='eval').body)
         if kd is None:
             ctx.undecided('C18.T3', ws, 'iteration over the clusters in _write_tsv_simple not recognised', it)
-        elif norm(e0) == norm(ast.parse(unparse(kid if by_key else kid.elts[0]), mode='eval').body) and norm(e1) == (vd if by_item else norm(ast.parse('%s[%s]' % (datap, kid.id), mode='eval').body)):
+        elif norm(e0) == kd and norm(e1) == vd:
             ctx.holds('C18.T3', ws, 'rows are (cluster id, its value) pairs', site)
-        elif norm(e1) == norm(ast.parse(unparse(kid if by_key else kid.elts[0]), mode='eval').body):
+        elif norm(e1) == kd:
             ctx.violated('C18.T3', ws, site, 'rows are not (cluster id, data[cluster id]) pairs: the id is written in the SECOND column (`%s`)' % unparse(pair))
         elif all(isinstance(x, (ast.Name, ast.Subscript, ast.Constant)) for x in (e0, e1)):
             ctx.violated('C18.T3', ws, site, 'rows are not (cluster id, data[cluster id]) pairs (`%s`)' % unparse(pair))
